@@ -984,6 +984,50 @@ func (p *c14) Run(tier string, seed int64, idx int) core.CaseResult {
 			fail("C14/valid-set-rejected", full.Err)
 			return res
 		}
+		// with every feature on, every data node written in the source is in the schema (sets without uses and
+		// augment: there a node of the source is a node of the schema, by kind and name)
+		{
+			plain := true
+			want := map[string]int{}
+			for _, m := range c.ms.Mods {
+				m.Walk(func(st *yang.Stmt, _ int) {
+					if st.Kw == "uses" || st.Kw == "augment" || st.Kw == "grouping" || st.Kw == "deviation" {
+						plain = false
+					}
+				}, 0)
+				for _, n := range c14Collect(m) {
+					switch n.s.Kw {
+					case "leaf", "leaf-list", "container", "list":
+						want[n.s.Kw+" "+n.s.Arg]++
+					}
+				}
+			}
+			if plain {
+				got := map[string]int{}
+				full.DumpRoot.Walk(func(n *dump.DNode, path []string) {
+					for _, p := range path {
+						if strings.HasPrefix(p, "merged-top") || strings.HasPrefix(p, "rpc") || strings.HasPrefix(p, "notification") {
+							return
+						}
+					}
+					switch n.Kind {
+					case "leaf", "leaf-list", "container", "list":
+						got[n.Kind+" "+n.Name]++
+					}
+				})
+				res.Ev("sets_with_every_source_node_looked_up", 1)
+				var missing []string
+				for k, w := range want {
+					if got[k] < w {
+						missing = append(missing, k)
+					}
+				}
+				sort.Strings(missing)
+				if len(missing) > 0 {
+					fail("C14/node-absent-without-a-reason", fmt.Sprintf("all features are on and nothing is deviated, yet the schema lacks: %v", missing))
+				}
+			}
+		}
 		ex := compileTexts(explicitInheritance(c.ms).Texts(nil), nil, c.ms.Features, nil, true)
 		if check(ex, "compile(explicit inheritance)") {
 			res.Ev("explicit_inheritance_compared", 1)
